@@ -3,6 +3,6 @@ CONSTANTS
   MaxTables = 5
   MaxCycles = 8
   K = 1
-  ReleaseBeforeJoin = FALSE
+  ReleaseBeforeJoin = TRUE
 INVARIANTS HandlesBounded ClosedReleasesAll NoGrowthWithCycles CloseCanProceed
 CHECK_DEADLOCK FALSE
